@@ -113,7 +113,11 @@ func (P *Program) Explore(h *HarnessSpec, opts RunOpts) *HarnessResult {
 		m, err := P.newMachine(h, opts, solverKind)
 		if err != nil {
 			mu.Lock()
-			inconc["setup: "+err.Error()] = true
+			msg := "setup: " + err.Error()
+			for f, e := range P.DroppedOverlays {
+				msg += "; harness file " + f + " does not compile against this tree: " + e
+			}
+			inconc[msg] = true
 			stop = true
 			cond.Broadcast()
 			mu.Unlock()
